@@ -36,7 +36,7 @@ theorem sortLe_total (l : List Val) (x y : Val) : (ListArr.sortLe l x y || ListA
   unfold ListArr.sortLe
   split
   · exact f64Le_total _ _
-  · exact Bytes.le_total _ _
+  · exact Bytes.le_total_sortOrder _ _
 
 theorem sortLe_trans (l : List Val) (x y z : Val) (h1 : ListArr.sortLe l x y = true)
     (h2 : ListArr.sortLe l y z = true) : ListArr.sortLe l x z = true := by
